@@ -10,6 +10,7 @@ import (
 	"verif/harness/codecrun"
 	"verif/harness/mqtttestrun"
 	"verif/harness/ruggedrun"
+	"verif/harness/runner"
 )
 
 func main() {
@@ -27,6 +28,8 @@ func main() {
 			}
 		}
 		err = mqtttestrun.Run(os.Stdin, os.Stdout, silence)
+	case "run":
+		err = runner.RunAll(os.Stdin, os.Stdout)
 	case "codec":
 		err = codecrun.Run(os.Stdin, os.Stdout)
 	case "rugged":
